@@ -29,6 +29,9 @@ type c04Case struct {
 	Overhead uint32    `json:"overhead"`
 	Perfs    []c04Perf `json:"perfs"`
 	FailAt   int       `json:"fail_at"` // 0 = encoder never fails
+	// Prev, when non-empty, is the agreed list of an earlier round handed to the SAME plug-in instance first: Reports is
+	// a function of its arguments, nothing may carry over from one call to the next
+	Prev []c04Perf `json:"prev,omitempty"`
 	// observed
 	Obs [][]int `json:"obs,omitempty"`
 	Err bool    `json:"err"`
@@ -106,6 +109,17 @@ func c04Boundary() []c04Case {
 	// defaults applied by DecodeOffchainConfig (0 -> 1 / 5.3M / 300k)
 	cs = append(cs, c04Case{Family: "config-defaults", Batch: 0, Limit: 0, Overhead: 0, Perfs: []c04Perf{{Upk: 1, Gas: 5000000}, {Upk: 2, Gas: 10}, {Upk: 3, Gas: 4999990}}})
 	cs = append(cs, c04Case{Family: "config-negative-batch", Batch: -3, Limit: L, Overhead: O, Perfs: small(3)})
+	// an earlier round on the same instance: its last report held upkeeps 1000 and 3; this round starts with them again
+	// (different work ids), then with a stale id in the middle
+	cs = append(cs, c04Case{Family: "previous-round-last-report-shares-upkeep", Batch: 10, Limit: L, Overhead: O,
+		Prev:  []c04Perf{{Upk: 1, Gas: 10}, {Upk: 1000, Log: 1, Gas: 10}, {Upk: 3, Gas: 10}},
+		Perfs: []c04Perf{{Upk: 1000, Log: 2, Gas: 10}, {Upk: 3, Gas: 10}, {Upk: 4, Gas: 10}}})
+	cs = append(cs, c04Case{Family: "previous-round-stale-id-mid-batch", Batch: 10, Limit: L, Overhead: O,
+		Prev:  small(3),
+		Perfs: []c04Perf{{Upk: 7, Gas: 10}, {Upk: 2, Gas: 10}, {Upk: 8, Gas: 10}}})
+	cs = append(cs, c04Case{Family: "previous-round-over-limit-gas-left", Batch: 10, Limit: L, Overhead: O,
+		Prev:  []c04Perf{{Upk: 1, Gas: 900}},
+		Perfs: []c04Perf{{Upk: 2, Gas: 200}, {Upk: 3, Gas: 200}}})
 	// each default on its own: only the zero field is replaced (batch 1 / limit 5.3M / overhead 300k)
 	cs = append(cs, c04Case{Family: "config-zero-batch-only", Batch: 0, Limit: L, Overhead: O, Perfs: small(4)})
 	cs = append(cs, c04Case{Family: "config-zero-limit-only", Batch: 5, Limit: 0, Overhead: O, Perfs: []c04Perf{{Upk: 1, Gas: 2650000 - uint64(O)}, {Upk: 2, Gas: 2650000 - uint64(O)}, {Upk: 3, Gas: 1}}})
@@ -165,6 +179,15 @@ func c04Random(r *Rng) c04Case {
 	if r.Chance(1, 8) {
 		c.FailAt = 1 + r.Intn(4)
 	}
+	if r.Chance(1, 4) && len(c.Perfs) > 0 { // an earlier round on the same instance, sharing upkeep ids with this one
+		k := 1 + r.Intn(4)
+		for i := 0; i < k; i++ {
+			q := c.Perfs[r.Intn(len(c.Perfs))]
+			q.Log += 1000 // another unit of work of the same upkeep
+			q.Gas = 1 + uint64(r.Intn(1000))
+			c.Prev = append(c.Prev, q)
+		}
+	}
 	return c
 }
 
@@ -182,6 +205,18 @@ func runC04Case(t *testing.T, c *c04Case) {
 	raw, err := outcome.Encode()
 	if err != nil {
 		t.Fatal(err)
+	}
+	if len(c.Prev) > 0 {
+		prev := make([]common.CheckResult, len(c.Prev))
+		for i, p := range c.Prev {
+			prev[i] = c04Result(p)
+		}
+		praw, perr := (ocr2keepers.AutomationOutcome{AgreedPerformables: prev}).Encode()
+		if perr != nil {
+			t.Fatal(perr)
+		}
+		nd.Enc.Reset(0)
+		_, _ = nd.Plugin.Reports(context.Background(), 6, praw)
 	}
 	nd.Enc.Reset(c.FailAt)
 	reports, rerr := nd.Plugin.Reports(context.Background(), 7, raw)
